@@ -98,8 +98,19 @@ theorem rxcLoop_sim (hXh : X (.hang "between_windows")) (mp d : Nat) (fuel : Nat
         obtain ⟨o, m⟩ := om
         cases o with
         | none =>
-          simp only
-          exact SimX.pure ⟨rfl, ⟨rfl, by simp [pushDls], rfl, ⟨[.rxContinuous], rfl, by simp [Call.isTx]⟩⟩⟩
+          simp only [DevRun.deliver]
+          have hr2 : RunRel r (⟨m, rest, Call.rxContinuous :: r.calls, r.downlinks, r.dlCap⟩ : DevRun) [] m :=
+            ⟨rfl, by simp [pushDls], rfl, ⟨[.rxContinuous], rfl, by simp [Call.isTx]⟩⟩
+          refine (ih _).mono ?_
+          intro st res hp
+          cases st with
+          | cont u r' =>
+            obtain ⟨h1, h2, h3⟩ := hp
+            exact ⟨h1, hr2.trans h2, by rw [h3, hs]; rfl⟩
+          | macErr r' =>
+            obtain ⟨h1, h2⟩ := hp
+            exact ⟨h1, hr2.trans h2⟩
+          | radioErr r' => exact hp.elim
         | some o =>
           simp only [deliver_some]
           have hr2 : RunRel r (⟨m, rest, Call.rxContinuous :: r.calls, pushDl r.dlCap r.downlinks o, r.dlCap⟩ : DevRun) [o] m :=
